@@ -33,14 +33,17 @@ holds in all reachable states: `C05.reachable_wf`), every phase, and every answe
    behind, or in `prepare` of that view (`honest_proposal_accepted`);
 5. delivered in **any order**, timeout votes for one view (or commit votes for one block) from distinct members
    whose weight reaches the quorum move the replica past that view (`quorum_of_timeouts_advances_any_order`,
-   `quorum_of_commits_advances_any_order`).
+   `quorum_of_commits_advances_any_order`);
+6. next to a block store that only grows and whose queue is never behind what it persisted, no reachable state leaves
+   a handler waiting for the store, and none panics: every input is rejected without change or accepted
+   (`no_reachable_state_blocks`, from the invariant `CacheBelowStore`, `cache_below_store_preserved`).
 
 The only way a handler does not complete is `Outcome.blocked`: `save_block` → `queue_block` waits until the block store
 has reached the certified block. `Blocks r e q` (§0) is the **exact** condition (`newview_blocked_iff`, and the `↔` in
 the vote theorems): the certificate `q` being processed is newer than the one held, its payload is in the proposal
 cache, and the store's next block is still below it. It is excluded by the hypothesis "lagging replicas can fetch
 missing blocks" in any of the forms of §0b (store caught up with the cached proposals; empty cache; predecessor
-persisted).
+persisted), and it never holds in the states of §7 (`reachableS_noBlock`).
 
 What is **not** proved: the network-level composition (that the messages above are in fact delivered to every
 correct replica within bounded time, the bound on the number of views, and the leader-schedule argument that a
@@ -838,7 +841,7 @@ theorem reachableS_cache_below_store (cfg : RCfg) (r : Replica) (disk : Option D
     (h : ReachableS cfg r disk s) :
     CacheBelowStore r s ∧ ∀ d, disk = some d → ∀ p ∈ d.proposals, p.1 ≤ s := by
   induction h with
-  | init => exact ⟨fun p hp => by cases hp, fun d hd => by cases hd⟩
+  | init => exact ⟨fun p hp => (by cases hp), fun d hd => (by cases hd)⟩
   | @step r disk s e inp hr hle hs hin hacc ih =>
     have hinv : CacheBelowStore r e.storeNext := fun p hp => Nat.le_trans (ih.1 p hp) hle
     have hnew := step_cache_below cfg r e inp hin hinv hs
@@ -970,6 +973,26 @@ example : (run exCfg exS1 ([(exEnv, 2, exT0), (exEnv, 3, exT0)].map timeoutInput
 
 example : (run exCfg exS4 ([(exEnv, 2), (exEnv, 3)].map (commitInput exVote))).view = 2 ∧
     (run exCfg exS4 ([(exEnv, 3), (exEnv, 2)].map (commitInput exVote))).view = 2 := by decide
+
+/-- §7: the run of C05 §10 is a run next to a sane store (`queued.next() = persisted.next() = 0` throughout; the
+proposal cached in `exS4` is for block 0), so `exS6` is reachable in the sense of `ReachableS` -/
+example : ∃ disk, ReachableS exCfg exS6 disk 0 :=
+  ⟨_, .step exEnv _ (.step exEnv _ (.step exEnv _ (.step exEnv _ (.step exEnv _ (.step exEnv .tick .init
+    (Nat.le_refl _) (Nat.le_refl _) (by intro b h; cases h) rfl)
+    (Nat.le_refl _) (Nat.le_refl _) (by intro b h; cases h) rfl)
+    (Nat.le_refl _) (Nat.le_refl _) (by intro b h; cases h) rfl)
+    (Nat.le_refl _) (Nat.le_refl _) (by intro b h; cases h) rfl)
+    (Nat.le_refl _) (Nat.le_refl _) (by intro b h; cases h) rfl)
+    (Nat.le_refl _) (Nat.le_refl _) (by intro b h; cases h) rfl⟩
+
+/-- `Blocks` is satisfiable (so `¬ Blocks` is a real hypothesis): a replica that holds the payload of block 5 in its
+cache, no commit certificate, next to a store that has only reached block 3, blocks on a commit certificate for
+block 5 — a state `ReachableS` excludes -/
+example : Blocks { (Replica.start none) with proposals := [(5, exPayload)] }
+    { queuedFirst := 0, persistedNext := 3, payloadOk := true, storeNext := 3 }
+    { message := { view := { genesis := 7, epoch := 2, number := 9 }, proposal := { number := 5, payload := 42 } },
+      signers := [], sig := [] } :=
+  ⟨fun cur h => (by cases h), ⟨(5, exPayload), List.mem_singleton.mpr rfl, rfl, rfl⟩, (by decide)⟩
 
 end Examples
 
